@@ -876,7 +876,14 @@ func (o *Node) setNotFound(path Path, n *Node) error {
 		size := int(thrift.BinaryEncoding{}.DecodeInt32(buf))
 		thrift.BinaryEncoding{}.EncodeInt32(buf, int32(size+1))
 		// add key bytes
-		key := path.ToRaw(n.t)
+		// NOTICE: the key must be encoded as the map's KEY type (1st byte of the map header), not as the value's type
+		kt := thrift.Type(*(*byte)(rt.SubPtr(o.v, uintptr(6))))
+		key := path.ToRaw(kt)
+		if key == nil {
+			// restore the size modified above
+			thrift.BinaryEncoding{}.EncodeInt32(rt.BytesFrom(rt.SubPtr(o.v, uintptr(4)), 4, 4), int32(size))
+			return errNode(meta.ErrDismatchType, fmt.Sprintf("path %s dismatches map key type %s", path, kt), nil)
+		}
 		src := n.raw()
 		buf = make([]byte, 0, len(key)+len(src))
 		buf = append(buf, key...)
